@@ -26,6 +26,10 @@ PROGRAMS = {
                  'let Enc{7-4} = rs; let Enc{3-0} = 0; string Asm = asm; }\ndef ADD : Inst<0b0001, "add">; def SUB : Inst<2, "sub"> { let rd = 1; }'),
     "range_let_inherited": ('class Inst { bits<8> Encoding; bits<4> Low; }\nclass RR : Inst { let Encoding{7-6} = 0b11; let Encoding{0} = 1; }\n'
                             'def ADD : RR { let Encoding = {1,1,0,0,0,0,0,1}; }\nclass Alias : RR { bits<8> Copy = Encoding; }\nclass RRI : RR; def SUB : RRI { let Encoding{3-0} = Low; }'),
+    "def_typed_join": ('class Base; class A : Base; class B : Base; def a1 : A; def a2 : A; def b1 : B;\ndef u { A r = !if(1, a1, a2); list<A> l = !listconcat([a1], [a2]); '
+                       'list<Base> m = !listconcat([a1], [b1]); Base v = !if(0, a1, Base<>); list<Base> n = !listconcat([a1], [Base<>]); }'),
+    "bits_concat": 'class E<bits<2> x, bits<3> y> { bits<4> b = { x{1-0}, 1, 0 }; bits<4> c = { x, 0b10 }; bits<8> d = { y, x, 0b101 }; bits<2> e = { 0b1, 0 }; } def e : E<1, 2>;',
+    "list_paste": 'def u { list<int> lp = [1] # [2, 3]; list<string> ls = ["a"] # ["b"]; string s = "a" # "b"; }',
     "bits_of_bits": 'class E<bits<8> v> { bits<8> val = v; bits<4> hi = v{7-4}; bits<4> lo = v{3...0}; bit top = v{7}; } def e : E<0xa5>;',
     "bits_literal_fields": 'class R<bits<3> n> { bits<5> HWEncoding; let HWEncoding{2-0} = n; let HWEncoding{4-3} = 0b11; } def r0 : R<0>;',
     # --- defm with classes after the multiclasses
